@@ -239,15 +239,24 @@ func (g *vp8lW) writeCode(lens []int, style string) {
 	if useSimple {
 		w.put(1, 1)
 		w.put(uint32(len(used)-1), 1)
-		if used[0] < 2 && r.Intn(2) == 0 {
+		// the two symbols may be transmitted in either order; codes are assigned canonically
+		first, second := used[0], -1
+		if len(used) == 2 {
+			second = used[1]
+			if r.Intn(2) == 0 {
+				first, second = second, first
+				g.stat["code-simple-descending"]++
+			}
+		}
+		if first < 2 && r.Intn(2) == 0 {
 			w.put(0, 1)
-			w.put(uint32(used[0]), 1)
+			w.put(uint32(first), 1)
 		} else {
 			w.put(1, 1)
-			w.put(uint32(used[0]), 8)
+			w.put(uint32(first), 8)
 		}
 		if len(used) == 2 {
-			w.put(uint32(used[1]), 8)
+			w.put(uint32(second), 8)
 		}
 		g.stat["code-simple"]++
 		return
